@@ -89,7 +89,7 @@ impl Op {
         matches!(self, Op::Store { .. } | Op::Swap { .. } | Op::Cas { .. } | Op::FetchAdd { .. })
     }
     pub fn returns(&self) -> bool {
-        matches!(self, Op::Load { .. } | Op::Swap { .. } | Op::Cas { .. } | Op::FetchAdd { .. } | Op::Await { .. } | Op::UnsyncLoad { .. })
+        matches!(self, Op::Load { .. } | Op::Swap { .. } | Op::Cas { .. } | Op::FetchAdd { .. } | Op::Await { .. })
     }
     pub fn is_mem(&self) -> bool {
         !matches!(self, Op::Fence { .. } | Op::CellRead { .. } | Op::CellWrite { .. })
@@ -345,7 +345,7 @@ fn exec(ops: &[Op], tid: u8, base_pc: u8, sh: &Shared, log: &Mutex<IterLog>) -> 
     let mut r = Vec::new();
     for (i, op) in ops.iter().enumerate() {
         let pc = base_pc + i as u8;
-        let mut ret = |v: u64, r: &mut Vec<u64>| {
+        let ret = |v: u64, r: &mut Vec<u64>| {
             r.push(v);
             v
         };
@@ -387,7 +387,10 @@ fn exec(ops: &[Op], tid: u8, base_pc: u8, sh: &Shared, log: &Mutex<IterLog>) -> 
                 sh.cells.0[c as usize].with_mut(|p| unsafe { std::ptr::write_volatile(p, 1) });
                 u64::MAX
             }
-            Op::UnsyncLoad { loc } => ret(unsafe { sh.locs[loc as usize].unsync_load() }, &mut r),
+            Op::UnsyncLoad { loc } => {
+                let _ = unsafe { sh.locs[loc as usize].unsync_load() };
+                u64::MAX
+            }
         };
         log.lock().unwrap().push((tid, pc, v));
     }
@@ -409,6 +412,8 @@ pub struct Cfg {
     pub abort_at: Option<(usize, bool)>,
     pub keep_seq: bool,
     pub keep_paths: bool,
+    /// user assertion: panic at the end of an iteration that produced exactly this outcome (fault injection)
+    pub panic_on_outcome: Option<Vec<u64>>,
 }
 
 pub struct RunResult {
@@ -546,7 +551,13 @@ pub fn run(p: &Prog, cfg: &Cfg) -> RunResult {
                 a.order_seq.push(order.clone());
             }
             a.orders.insert(order);
+            let fail = cfg2.panic_on_outcome.as_ref() == Some(&out);
             a.outcomes.insert(out);
+            drop(a);
+            drop(lg);
+            if fail {
+                panic!("{}outcome", USER_PANIC_PREFIX);
+            }
         });
     }));
     loom::verif::set_iteration_hook(None);
